@@ -5,7 +5,7 @@ import json
 import random
 import subprocess
 
-from symx import (sym_num, sym_int, check, obs, cover, eq, ne, ge, le, lt, gt, fail, And, Or, Not)
+from symx import (sym_num, sym_int, check, obs, cover, eq, ne, ge, le, lt, gt, fail, And, Or, Not, smax, smin)
 from props.kcommon import sort_of, gen_programs
 from props.c01 import run_program, CORE_SHAPES
 
@@ -313,7 +313,103 @@ def h_netmon(cfg):
     obs('samples', len(a[2]), [len(u) for u in a[1]])
 
 
-HARNESSES = {'split': h_split, 'initial': h_initial, 'net': h_net, 'netmon': h_netmon}
+class Boom(Exception):
+    pass
+
+
+def h_untilev(cfg):
+    """run(until=<event>) for the event kinds the kernel offers: a condition (its value must be returned), and an
+    event that fails while a process (registered before or after the run() call) waits on it and handles it"""
+    from onl.sim import Environment
+    from onl.sim.events import ConditionValue
+    sorts, what = cfg['sorts'], cfg['what']
+    d = [sym_num('d%d' % i, sort_of(sorts, i), 0) for i in range(3)]
+    v = [sym_int('v%d' % i) for i in range(2)]
+    traces = []
+    for variant in ('single', 'split'):
+        env = Environment()
+        log = []
+        if what in ('and', 'or'):
+            a, b = env.timeout(d[0], value=v[0]), env.timeout(d[1], value=v[1])
+            proc_done = {}
+
+            def other():
+                yield env.timeout(d[2])
+                log.append(('other', env.now))
+            env.process(other())
+            cond = (a & b) if what == 'and' else (a | b)
+            try:
+                if variant == 'split':
+                    r = env.run(until=cond)
+                    check('c03.until-event-processed', cond.processed)
+                    check('c03.until-condition-returns-its-value', isinstance(r, ConditionValue) and r is cond.value,
+                          type(r).__name__)
+                    if isinstance(r, ConditionValue):
+                        exp_now = smax(d[0], d[1]) if what == 'and' else smin(d[0], d[1])
+                        check('c03.until-event-returns-at-its-instant', eq(env.now, exp_now))
+                        keys = list(r.keys())
+                        check('c03.until-condition-value-entries', all(k is a or k is b for k in keys) and
+                              (what == 'or' or len(keys) == 2) and len(keys) >= 1)
+                        for k in keys:
+                            check('c03.until-condition-value-entries', eq(r[k], v[0] if k is a else v[1]))
+                    cover('until-condition')
+                env.run()
+            except Exception as ex:  # noqa
+                fail('no-raise', '%s: %s: %s' % (variant, type(ex).__name__, ex))
+                return
+        else:
+            E = env.event()
+
+            def failer():
+                yield env.timeout(d[0])
+                E.fail(Boom(v[0]))
+                log.append(('failed', env.now))
+
+            def waiter():
+                yield env.timeout(d[1])
+                log.append(('waiting', env.now))
+                try:
+                    yield E
+                    log.append(('resumed-ok', env.now))
+                except Boom as e:
+                    log.append(('handled', env.now, e.args[0]))
+                yield env.timeout(d[2])
+                log.append(('waiter-done', env.now))
+
+            env.process(failer())
+            env.process(waiter())
+            try:
+                if variant == 'split':
+                    try:
+                        env.run(until=E)
+                        fail('c03.until-failed-event-raises', 'returned normally')
+                    except Boom as e:
+                        check('c03.until-failed-event-raises', eq(e.args[0], v[0]))
+                        check('c03.until-event-returns-at-its-instant', eq(env.now, d[0]))
+                        cover('until-failed-event')
+                for _ in range(3):
+                    try:
+                        env.run()
+                        break
+                    except Boom:
+                        # nobody had registered on the event when it was processed: the unhandled failure surfaces from
+                        # run() (in both variants); the simulation itself can be continued
+                        cover('unhandled-failure-surfaced')
+            except Exception as ex:  # noqa
+                fail('no-raise', '%s: %s: %s' % (variant, type(ex).__name__, ex))
+                return
+        traces.append(log)
+    a_, b_ = traces
+    check('c03.split-same-length', len(a_) == len(b_), ([x[0] for x in a_], [x[0] for x in b_]))
+    for x, y in zip(a_, b_):
+        check('c03.split-same-order', x[0] == y[0], (x[0], y[0]))
+        check('c03.split-same-times', eq(x[1], y[1]), x[0])
+    for x in a_:
+        obs('t', x[0], x[1])
+    cover('nontrivial')
+
+
+HARNESSES = {'untilev': h_untilev, 'split': h_split, 'initial': h_initial, 'net': h_net, 'netmon': h_netmon}
 
 PLANS = [
     [['until', 1]], [['until', 2], ['until', 3]], [['step', 1], ['until', 2]], [['step', 3]],
@@ -345,6 +441,9 @@ def jobs(tier, seed):
             js.append({'harness': 'initial', 'cfg': {'sorts': sorts, 'c': c}})
     for plan in ([['until', 1], ['until', 2]], [['step', 2], ['until', 3]], [['until', 2], ['step', 3]]):
         js.append({'harness': 'net', 'cfg': {'n': 2, 'sorts': 'int', 'plan': plan}, 'weight': 300})
+    for what in ('and', 'or', 'fail'):
+        for sorts in ('int', 'real'):
+            js.append({'harness': 'untilev', 'cfg': {'what': what, 'sorts': sorts}, 'weight': 20})
     combos = [([['until', 2], ['step', 30]], 'sched'), ([['step', 40]], 'port'), ([['step', 12], ['until', 3]], 'both')]
     if tier != 'quick':
         combos += [([['step', 40]], 'sched'), ([['until', 2], ['step', 30]], 'port'), ([['step', 6]], 'both'),
@@ -394,7 +493,8 @@ META = {
     'required_labels': ['c03.split-same-monitor-samples', 'c03.split-same-port-samples', 'c03.split-same-order', 'c03.split-same-times', 'c03.rerun-same-times', 'c03.until-now',
                         'c03.until-only-strictly-earlier', 'c03.until-refused-only-if-not-in-future',
                         'c03.until-event-value'],
-    'required_covers': ['nontrivial', 'until-stop', 'until-refused', 'until-event', 'single-steps', 'network-scenario'],
+    'required_covers': ['nontrivial', 'until-stop', 'until-refused', 'until-event', 'single-steps', 'network-scenario',
+                        'until-condition', 'until-failed-event'],
     'bounds': {'quick': '15 kernel program shapes (<= 3 processes, <= 7 occurrences) x 3 of 10 split plans (run(until=1|2|3), run(until=process / '
                         'shared event), step() x m, in sequences of <= 3) + generator->port->wire->sink (2 packets) under 3 plans; initial_time '
                         'symbolic; summaries of 4 jobs compared under 2 hash seeds',
